@@ -23,6 +23,7 @@ package plugin
 import (
 	"fmt"
 	"io"
+	"path/filepath"
 	"strings"
 
 	"go.uber.org/atomic"
@@ -158,6 +159,20 @@ func (sg *serviceGenerator) Generate(req *api.GenerateServiceRequest) (*api.Gene
 					`path %q contains ".."`, name, path)
 		}
 	}
+
+	// Different spellings of a path ("./a/b.go", "a//b.go") name the same
+	// file. Conflicts between sources are detected by comparing paths, so
+	// hand on each path in its clean form.
+	files := make(map[string][]byte, len(res.Files))
+	for path, contents := range res.Files {
+		clean := filepath.Clean(path)
+		if _, taken := files[clean]; taken {
+			return res, fmt.Errorf(
+				"plugin %q is attempting to write the file %q more than once", name, clean)
+		}
+		files[clean] = contents
+	}
+	res.Files = files
 
 	return res, nil
 }
